@@ -427,9 +427,15 @@ def same(a, b):
 
 def run(chk):
     chk.build_and_prove()
-    import reactivex
     pool, T = ops_table()
-    ncase = 40 if chk.tier == "quick" else 400
+    run_table(chk, "C05", pool, T, expected, IMPORTS)
+    return chk.finish(trusted_extra=["hot-source K2 driver (harness/k2.py); callback tables mirrored in Gallina"])
+
+
+def run_table(chk, pid, pool, T, expected, IMPORTS, in_ty="Z", ncase=None, maxlen=7, gen_inputs=None):
+    """generic K2 loop over a table of operator-instance generators"""
+    import reactivex
+    ncase = ncase or (40 if chk.tier == "quick" else 400)
     gal = {}      # per (ty,eqb) group of cases
     per_op = {}
     meta = []
@@ -439,7 +445,7 @@ def run(chk):
         per_op[name] = 0
         for ci in range(ncase):
             inst = gen(chk.rng)
-            ins = k2.gen_inputs(chk.rng, pool, maxlen=7)
+            ins = (gen_inputs or k2.gen_inputs)(chk.rng, inst.get("pool", pool), maxlen=maxlen)
             snapshot = inst.get("snapshot")
             res = k2.run_hot(lambda s: s.pipe(inst["py"]), ins)
             chk.cov["evaluations"] += 1
@@ -458,13 +464,14 @@ def run(chk):
             term_hist["C" if term == "C" else ("none" if term is None else "E")] += 1
             if not conforming:
                 term_hist["nonconforming"] += 1
-            sig = f"{name}|{inst['coq']}|{k2.g_inputs(ins, pool)}"
+            ipool = inst.get("pool", pool)
+            sig = f"{name}|{inst['coq']}|{k2.g_inputs(ins, ipool)}"
             # --- oracle: python list computation (well-formed prefix; later inputs must change nothing)
-            exp = expected(inst["spec"], xs, term, pool)
-            got = canon_out(res, inst["spec"], pool)
+            exp = expected(inst["spec"], xs, term, ipool)
+            got = canon_out(res, inst["spec"], ipool)
             if res["escapes"]:
                 chk.violation(f"escape|{name}|{type(res['escapes'][0][1]).__name__}",
-                              {"operator": name, "instance": inst["coq"], "inputs": k2.g_inputs(ins, pool),
+                              {"operator": name, "instance": inst["coq"], "inputs": k2.g_inputs(ins, ipool),
                                "escaped": [(t, repr(e)) for t, e in res["escapes"]],
                                "expected": "no exception propagates into the emitter"}, size=len(ins))
             elif exp is not None:
@@ -476,9 +483,9 @@ def run(chk):
                 if any(e[1] == ("E", c) for e in [ee] if e for c in (21, 22, 31, 32)):
                     term_hist["callback_raises"] += 1
                 if not ok:
-                    chk.violation(f"list-semantics|{name}|{k2.g_inputs(ins, pool)}|{inst['coq'][:60]}",
+                    chk.violation(f"list-semantics|{name}|{k2.g_inputs(ins, ipool)}|{inst['coq'][:60]}",
                                   {"operator": name, "instance": inst["coq"],
-                                   "inputs (ids into pool)": k2.g_inputs(ins, pool),
+                                   "inputs (ids into pool)": k2.g_inputs(ins, ipool),
                                    "pool": [repr(v) for v in pool.values],
                                    "implementation (tag, value)": repr(got), "expected": repr(exp),
                                    "oracle": "equivalent Python list computation, outputs tagged with the "
@@ -493,13 +500,13 @@ def run(chk):
                 enc.none_is_absent = (term == "C" and last_tag == len(xs) + 1)
             key = (inst["ty"], inst["eqb"])
             gal.setdefault(key, []).append(
-                (f"({inst['coq']}, {k2.g_inputs(ins, pool)})", k2.g_out(res, enc)))
-            meta.append((key, len(gal[key]) - 1, name, inst["coq"], ins))
+                (f"({inst['coq']}, {k2.g_inputs(ins, ipool)})", k2.g_out(res, enc)))
+            meta.append((key, len(gal[key]) - 1, name, inst["coq"], k2.g_inputs(ins, ipool)))
     total_bad = 0
     for (ty, eqb), cases in gal.items():
-        prelude = (f"Definition model (c : mealy Z {ty} * list (ev Z)) := exec (fst c) (snd c).\n")
-        bad, logs = lib.correspondence("C05", "k2_" + str(abs(hash((ty, eqb))) % 10**6), IMPORTS,
-                                       f"(mealy Z {ty} * list (ev Z)) * list (nat * ev {ty})",
+        prelude = (f"Definition model (c : mealy {in_ty} {ty} * list (ev {in_ty})) := exec (fst c) (snd c).\n")
+        bad, logs = lib.correspondence(pid, "k2_" + str(abs(hash((ty, eqb))) % 10**6), IMPORTS,
+                                       f"(mealy {in_ty} {ty} * list (ev {in_ty})) * list (nat * ev {ty})",
                                        "model", f"(tagged_eqb {eqb})", cases, prelude=prelude)
         chk.cov["traces_validated_against_impl"] += len(cases)
         chk.cov["disagreements_checked"] += len(cases)
@@ -508,7 +515,7 @@ def run(chk):
             firsts = [cases[i] for i in bad if i >= 0][:3]
             detail = {"n": len(bad), "first (machine+inputs, implementation output)": firsts, "logs": logs[:1]}
             if firsts:
-                detail["model_says"] = lib.coq_show("C05", IMPORTS, f"model {firsts[0][0]}", prelude)
+                detail["model_says"] = lib.coq_show(pid, IMPORTS, f"model {firsts[0][0]}", prelude)
             chk.tie_broken(f"correspondence K2 ({ty}): machine vs implementation", detail)
     chk.cov["distinct_nontrivial"] = len(nontrivial)
     chk.cov["rule"] = ("per operator: seeded random instance (callback tables over a 16-value pool headed by the "
@@ -517,9 +524,8 @@ def run(chk):
                        "with >=2 source elements, a non-empty expected output and the oracle satisfied")
     chk.cov["input_distribution"] = {"per_operator": per_op, "terminals": term_hist}
     chk.cov["operators_modelled"] = sorted(T)
-    chk.add_samples([{"operator": m[2], "machine": m[3], "inputs": k2.g_inputs(m[4], pool)}
+    chk.add_samples([{"operator": m[2], "machine": m[3], "inputs": m[4]}
                      for m in meta[::max(1, len(meta) // 5)]])
-    return chk.finish(trusted_extra=["hot-source K2 driver (harness/k2.py); callback tables mirrored in Gallina"])
 
 
 def replay(chk, path):
